@@ -61,6 +61,10 @@ def parse_url(url: str) -> ParsedURL:
     if "\t" in url or "\r" in url or "\n" in url:
         raise ValueError("Invalid URL: TAB, CR and LF characters are not allowed")
 
+    # It also strips leading control characters and blanks
+    if url[0] <= " ":
+        raise ValueError("Invalid URL: leading blanks or control characters")
+
     # Parse the URL
     parsed = urlparse(url)
 
@@ -76,11 +80,13 @@ def parse_url(url: str) -> ParsedURL:
         raise ValueError(f"URL missing hostname: {url}")
 
     # Reject userinfo (per Gemini spec: userinfo portions are forbidden)
-    if parsed.username or parsed.password:
+    # (an empty userinfo, as in 'gemini://@host/', is a userinfo as well)
+    if parsed.username or parsed.password or "@" in parsed.netloc:
         raise ValueError(f"URL must not contain userinfo (user:password): {url}")
 
     # Reject fragments (per Gemini spec: fragments cannot be included)
-    if parsed.fragment:
+    # (an empty fragment, as in 'gemini://host/#', is a fragment as well)
+    if parsed.fragment or "#" in url:
         raise ValueError(f"URL must not contain fragment: {url}")
 
     # Get port (default to 1965)
